@@ -184,19 +184,30 @@ def run(fx, rep):
                     other.add(F.term_str(r)[:60])
         rep.check(not other, 'R3', '%s/returns-only-that-node' % name, b.loc(), 'returns the operator node, a visited child or the error placeholder',
                   '%s also returns a tree built by %s: the operator/operand structure of the source is not what is evaluated' % (name, sorted(map(str, other))))
+    def args_in_order(b, pv, operand):
+        """the argument vector is the visited children of the expression list, in list order: either the
+        iter().flat_map(..).map(visit).collect() chain or a forward loop pushing visit(item) onto a fresh vector"""
+        ts = terms(pv, operand)
+        if ts and all(re.match(r'^collect\(map\(flat_map\(iter\(arg2\.args\), ', x) for x in ts):
+            return True
+        if ts and all(x in ('new()', 'default()', 'with_capacity(len(arg2.args))') or x.startswith('with_capacity(') for x in ts):
+            pushes = [terms(pv, t['args'][1]) for bi, t in b.calls() if (F.norm_callee(t) or '').endswith('Vec::push') and 'IdedExpr' in t['arg_tys'][0]]
+            reorder = [F.norm_callee(t) for bi, t in b.calls() if re.search(r'::(rev|rfold|next_back|reverse|sort\w*|swap|insert|rotate_\w+|pop|swap_remove|dedup\w*|retain)$', F.norm_callee(t) or '')
+                       and ('IdedExpr' in t['arg_tys'][0] or 'ExprContext' in t['arg_tys'][0] or 'Iter<' in t['arg_tys'][0])]
+            return len(pushes) == 1 and not reorder and all(re.match(r'^visit\(arg1, item\(.*arg2\.args.*\)\)$|^visit\(arg1, item\(.*\.e\)\)$', x) for x in pushes[0])
+        return False
     b = visitor(fx, 'visit_MemberCall')
     pv = F.Prov(b)
     cs = [(bi, t) for bi, t in b.calls() if (F.norm_callee(t) or '').endswith('Parser::receiver_call_or_macro')]
     okk = len(cs) == 1
     if okk:
         t = cs[0][1]
-        okk = terms(pv, t['args'][2]) == ['get_text(arg2.id)'] and terms(pv, t['args'][3]) == ['visit(arg1, member(arg2))'] and \
-            all(re.match(r'^collect\(map\(flat_map\(iter\(arg2\.args\), ', x) for x in terms(pv, t['args'][4]))
+        okk = terms(pv, t['args'][2]) == ['get_text(arg2.id)'] and terms(pv, t['args'][3]) == ['visit(arg1, member(arg2))'] and args_in_order(b, pv, t['args'][4])
     rep.check(okk, 'R3', 'visit_MemberCall/receiver-name-args', b.loc(), 'receiver = member, name = id text, args in list order', 'member call is not built from (member, id, args in order)')
     b = visitor(fx, 'visit_GlobalCall')
     pv = F.Prov(b)
     cs = [(bi, t) for bi, t in b.calls() if (F.norm_callee(t) or '').endswith('Parser::global_call_or_macro')]
-    okk = len(cs) == 1 and all(re.match(r'^collect\(map\(flat_map\(iter\(arg2\.args\), ', x) for x in terms(pv, cs[0][1]['args'][3]))
+    okk = len(cs) == 1 and args_in_order(b, pv, cs[0][1]['args'][3])
     rep.check(okk, 'R3', 'visit_GlobalCall/args-in-list-order', b.loc(), 'args in list order', 'global call arguments are not taken in list order')
     # forward iteration of argument lists (no rev)
     for name in ('visit_MemberCall', 'visit_GlobalCall'):
